@@ -7,6 +7,7 @@ any context, at least three polling cycles, optionally a shutdown racing the sub
 """
 import itertools
 import random
+from concurrent.futures import ThreadPoolExecutor
 
 from ..rt import scen
 from . import regkernel
@@ -108,19 +109,37 @@ def run(ctx):
                                  {"op": "drop_service", "s": "s2"}, {"op": "new_service", "s": "s3", "ctx": "thread"}, {"op": "wait_start", "p": "s3"}, {"op": "polls", "n": 2}], "shape": "targeted-service-created-while-another-is-collected"})
     # a burst of adoptions from inside one synchronous step of a coroutine payload (nothing
     # can drain a hand-over buffer meanwhile): "for all numbers of payloads"
-    for f, n in (("trio", 300), ("asyncio", 120)):
+    for f, n in (("trio", 270), ("asyncio", 60)):
         burst = {"q%03d" % i: {"flavour": f} for i in range(1, n + 1)}
         pl = dict(burst)
         pl["c1"] = {"flavour": f}
         extra.append({"seed": ctx.seed, "jitter": 0.0, "poll": 0.05, "timeout": 25.0, "payloads": pl,
                       "script": [{"op": "adopt", "p": "c1"}, {"op": "accept"}, {"op": "wait_running"}, {"op": "wait_start", "p": "c1"}, {"op": "adopt_burst", "ctx": "payload:c1", "ps": sorted(burst)},
                                  {"op": "wait_start", "p": "q%03d" % n}, {"op": "wait_start", "p": "q001"}, {"op": "polls", "n": 3}], "shape": "targeted-adoption-burst"})
-    first = True
-    for allow, ss in groups.items():
-        scen.run_family(ctx, ss, names=NAMES, allow=allow, mc_invariants=["AtMostOnce", "AdoptReturnsNone", "DiscardOnlyWhenShuttingDown"], mc_properties=["ExactlyOnceLive"], per_shape=14 if thorough else 4, depth=40, label="c03" + "".join(a[:2] for a in allow), extra_scenarios=(extra if first else ()))
-        first = False
-    # the registration / start-up kernel at hook granularity: Registration.tla, every
-    # transition of its state graph forced onto the real MetaRunner by the gate scheduler
-    regkernel.run(ctx)
+    # three independent parts, run side by side (each in its own scratch context):
+    #  (1) the families of TLC-simulated behaviours + the targeted scripts,
+    #  (2) the long adoption-burst traces (their validation takes TLC half a minute),
+    #  (3) the registration / start-up kernel at hook granularity: Registration.tla, every
+    #      transition of its state graph forced onto the real MetaRunner by the gate scheduler
+    bursts = [s for s in extra if s["shape"] == "targeted-adoption-burst"]
+    extra = [s for s in extra if s["shape"] != "targeted-adoption-burst"]
+
+    def part_families(c):
+        first = True
+        for allow, ss in groups.items():
+            scen.run_family(c, ss, names=NAMES, allow=allow, mc_invariants=["AtMostOnce", "AdoptReturnsNone", "DiscardOnlyWhenShuttingDown"], mc_properties=["ExactlyOnceLive"], per_shape=14 if thorough else 4, depth=40, label="c03" + "".join(a[:2] for a in allow), extra_scenarios=(extra if first else ()))
+            first = False
+
+    def part_bursts(c):
+        scen.run_family(c, [], names=NAMES, allow=(), mc_invariants=[], mc_properties=[], per_shape=0, depth=1, label="c03burst", extra_scenarios=bursts)
+
+    parts = [part_families, part_bursts, regkernel.run]
+    subs = [ctx.child() for _ in parts]
+    with ThreadPoolExecutor(max_workers=len(parts)) as ex:
+        futs = [ex.submit(fn, c) for fn, c in zip(parts, subs)]
+        for fu in futs:
+            fu.result()
+    for c in subs:
+        ctx.merge(c)
     ctx.extra["rule"] = "shapes = flavour assignments of three payloads with argument tuples/dicts, one queued before start, two adopted afterwards from a thread or from inside a payload of each flavour; 0..2 services (one with a falsy instance) created before or after start; optionally a shutdown racing the submissions; TLC-simulated behaviours per shape + targeted adopt-while-closing scripts; plus forced schedules covering the transitions of Registration.tla (registration kernel at hook granularity)"
     ctx.assumptions = RT_ASSUMPTIONS + ["callers wait for the runner to report running before they adopt (the documented protocol); a submission that overlaps accept()'s own start-up is neither 'before' nor 'after' start (DESIGN 7.4)", "quiescence = the service loop has polled at least three more times after the last scripted action"]
